@@ -189,7 +189,8 @@ def check_C03():
 def check_C07():
     q = tier() == "quick"
     sizes = {"int": 70, "float": 70, "string": 80, "any": 20} if q else {"int": 400, "float": 500, "string": 600, "any": None}
-    return run_direct_property("C07", {"try_new", "new"}, sizes, 40 if q else 300, False, mc_suffix="c07",
+    eps = {"try_new", "new", "try_from", "try_from_ref", "from_str_s"}
+    return run_direct_property("C07", eps, sizes, 40 if q else 300, False, mc_suffix="c07", const_twins=True,
                                lifts=1 if q else 2, reject_is_violation=variant_reject,
                                evidence_extra={"slice": "every permutation of the validator lists (int: lower+upper+predicate; "
                                                "float: lower+upper+finite+predicate; string: 4 and 5 of not_empty, len_char_min, "
